@@ -10,8 +10,6 @@ import (
 	"path/filepath"
 )
 
-var nodeInfos []bs_domain.BSDataStruct
-
 type BadSmellApp struct {
 }
 
@@ -20,7 +18,8 @@ func NewBadSmellApp() *BadSmellApp {
 }
 
 func (j *BadSmellApp) AnalysisPath(codeDir string) *[]bs_domain.BSDataStruct {
-	nodeInfos = nil
+	// a result of its own for every call: a pointer into a package-level slice was overwritten by the next analysis
+	var nodeInfos []bs_domain.BSDataStruct
 	files := cocafile.GetJavaFiles(codeDir)
 	for index := range files {
 		nodeInfo := bs_domain.NewJFullClassNode()
